@@ -185,12 +185,28 @@ class ShimEmpty(Exception):
     pass
 
 
+class ShimFull(Exception):
+    pass
+
+
 class ShimQueue:
     """queue.Queue(maxsize) whose blocking operations are scheduler-aware"""
     def __init__(self, sched, maxsize=0, shared=True):
         self.s, self.maxsize, self.items, self.shared = sched, maxsize, collections.deque(), shared
 
+    def put_nowait(self, item):
+        return self.put(item, block=False)
+
     def put(self, item, block=True, timeout=None):
+        if not block:
+            if self.shared:
+                self.s.yield_point('put_nowait')
+            if 0 < self.maxsize <= len(self.items):
+                raise ShimFull()
+            if self.shared:
+                self.s.emit('put', item)
+            self.items.append(item)
+            return
         if self.shared:
             self.s.yield_point('put', lambda: self.maxsize <= 0 or len(self.items) < self.maxsize)
             self.s.emit('put', item)
@@ -347,7 +363,7 @@ def install(pu, sched):
     """substitute the shims in the namespace of lazy_dataset.parallel_utils; returns an undo()"""
     import queue as rq, threading as rt, concurrent.futures as rcf
     old = (pu.queue, pu.threading, pu.concurrent)
-    q = Namespace(); q.Queue = lambda maxsize=0: ShimQueue(sched, maxsize, shared=maxsize > 0); q.Empty = ShimEmpty
+    q = Namespace(); q.Queue = lambda maxsize=0: ShimQueue(sched, maxsize, shared=maxsize > 0); q.Empty = ShimEmpty; q.Full = ShimFull
     t = Namespace(); t.Thread = lambda target, args=(): ShimThread(sched, target, args)
     c = Namespace(); c.futures = Namespace()
     c.futures.ThreadPoolExecutor = lambda max_workers: ShimExecutor(sched, max_workers)
